@@ -107,6 +107,64 @@ func runC11Forwarding(sum *Summary) {
 	}
 }
 
+// runC11Cancelled: a caller that gives up (cancels, disconnects) while its revision has not been applied - and never
+// will be - is answered promptly and leaves the queue: waiting never wedges a handler, whatever the kind of write and
+// whether or not the request carries a deadline.
+func runC11Cancelled(sum *Summary) {
+	tb := []byte("t")
+	calls := map[string]func(s *regattaserver.ForwardingKVServer, ctx context.Context) error{
+		"put": func(s *regattaserver.ForwardingKVServer, ctx context.Context) error {
+			_, err := s.Put(ctx, &regattapb.PutRequest{Table: tb, Key: []byte("k"), Value: []byte("v")})
+			return err
+		},
+		"delete": func(s *regattaserver.ForwardingKVServer, ctx context.Context) error {
+			_, err := s.DeleteRange(ctx, &regattapb.DeleteRangeRequest{Table: tb, Key: []byte("k")})
+			return err
+		},
+		"txn": func(s *regattaserver.ForwardingKVServer, ctx context.Context) error {
+			_, err := s.Txn(ctx, &regattapb.TxnRequest{Table: tb, Success: []*regattapb.RequestOp{{Request: &regattapb.RequestOp_RequestPut{RequestPut: &regattapb.RequestOp_Put{Key: []byte("k"), Value: []byte("v")}}}}})
+			return err
+		},
+	}
+	for i, name := range []string{"put", "delete", "txn"} {
+		for _, withDeadline := range []bool{false, true} {
+			q := storage.NewNotificationQueue()
+			go q.Run()
+			ml := mockLeader{rev: 50, deleted: 1, succ: true}
+			srv := regattaserver.NewForwardingKVServer(nil, &ml, q)
+			ctx, cancel := context.WithCancel(context.Background())
+			if withDeadline {
+				var c2 context.CancelFunc
+				ctx, c2 = context.WithTimeout(ctx, time.Hour)
+				defer c2()
+			}
+			done := make(chan error, 1)
+			go func() { done <- calls[name](srv, ctx) }()
+			time.Sleep(150 * time.Millisecond) // the waiter is queued; revision 50 is never notified
+			cancel()
+			in := map[string]any{"forwarded_write": name, "leader_revision": 50, "request_has_deadline": withDeadline, "scenario": "the caller cancels while the revision has not been applied"}
+			sum.Evaluations++
+			sum.hist("forwarded_writes").Inc("cancelled " + name)
+			select {
+			case err := <-done:
+				if err == nil {
+					sum.violate(9300+i, "a forwarded write is answered before the node applied a leader index at or beyond its revision", in, "returned without an error although revision 50 was never applied")
+				}
+			case <-time.After(6 * time.Second):
+				sum.violate(9300+i, "a cancelled caller is not answered: its handler stays parked in the queue", in, fmt.Sprintf("no answer within 6 s of the cancellation; queue length of the table: %d", q.Len("t")))
+			}
+			if l := q.Len("t"); l != 0 {
+				// give the sweep one more period
+				time.Sleep(1500 * time.Millisecond)
+				if l = q.Len("t"); l != 0 {
+					sum.violate(9300+i, "a cancelled caller stays in the queue", in, fmt.Sprintf("queue length of the table %d", l))
+				}
+			}
+			_ = q.Close()
+		}
+	}
+}
+
 // runC11Applied: the apply path reports an index to the queue (appliedFunc -> Notify); at that moment the batch must
 // already be readable on this node, otherwise a released caller's next read misses its own write.
 func runC11Applied(sum *Summary) error {
